@@ -1167,6 +1167,114 @@ def ob_unassigned_writer(ctx, n_jobs):
     return res
 
 
+def ob_read_locks(ctx):
+    """C01 (relation pinning, translation of the documents): `read_locks` of the job reader (real MIR; the bucket map as an
+    association list over (vehicle id, shift index)) on two relations whose vehicle id, shift index, type and first / last entry
+    (a job or the reserved `departure` / `arrival`) are symbolic choices: every relation becomes exactly one lock detail - same
+    order kind, position derived from the reserved ends, its jobs in order - inside a lock whose condition is built for THAT
+    relation's vehicle id and shift index (absent shift index = 0); one lock per distinct (vehicle, shift)."""
+    from symex import AMapV
+    name = 'read_locks'
+    res = Result(name)
+    res.bounds = ('two relations: vehicle id in {v1, v2}, shift index absent / 0 / 1, type any / sequence / strict (first relation), first entry departure or job j1, '
+                  'last entry arrival or job j3, middle job j2; second relation: job j4, type any')
+    t0 = time.time()
+    fn = ctx.prog.find_free('read_locks')
+    none = lambda ty: mk_option(False, ty=ty)
+
+    class Env(CheckerEnv):
+        symbolic_maps = True
+
+        def override(self, engine, st, callee, args, dest_ty):
+            if callee.endswith('create_condition'):
+                return ArcV(Cell(Agg('struct', [args[0], args[1]], 'LockCondition')))
+            return super().override(engine, st, callee, args, dest_ty)
+
+    env = Env(ctx.prog, ctx.layout, 8)
+    eng, _ = ctx.engines(env)
+    TYPES = ('any', 'sequence', 'strict')
+
+    def body(st):
+        env.assumptions.clear()
+        doc, rels = [], []
+        for r in range(2):
+            cv = z3.Int(f'relation{r}_vehicle')
+            vid = eng.choose(st, [(cv == 0, 'v1'), (cv == 1, 'v2')])
+            cs = z3.Int(f'relation{r}_shift')
+            shift = eng.choose(st, [(cs == k, x) for k, x in enumerate((None, 0, 1))])
+            if r == 0:
+                ct = z3.Int('relation0_type')
+                ty = eng.choose(st, [(ct == k, k) for k in range(3)])
+                cf, cl = z3.Int('relation0_first'), z3.Int('relation0_last')
+                first = eng.choose(st, [(cf == 0, 'departure'), (cf == 1, 'j1')])
+                last = eng.choose(st, [(cl == 0, 'arrival'), (cl == 1, 'j3')])
+                jobs = [first, 'j2', last]
+            else:
+                ty, jobs = 0, ['j4']
+            rels.append(env.struct('problem::model::Relation', type_field=EnumV('model::RelationType', ty, {}), jobs=VecV([Opaque(f'"{x}"') for x in jobs]),
+                                   vehicle_id=Opaque(f'"{vid}"'), shift_index=mk_option(True, IV(shift), ty='Option<usize>') if shift is not None else none('Option<usize>')))
+            doc.append({'vehicle': vid, 'shift': shift, 'type': TYPES[ty], 'jobs': jobs})
+        plan_ = env.struct('problem::model::Plan', jobs=VecV([]), relations=mk_option(True, VecV(rels), ty='Option<Vec<Relation>>'), clustering=none('Option<Clustering>'))
+        problem = env.struct('problem::model::Problem', plan=plan_, fleet=Opaque('fleet'), objectives=none('Option<Vec<Objective>>'))
+        job_index = AMapV([(Opaque(f'"j{i}"'), EnumV('jobs::Job', 0, {0: [ArcV(Cell(Opaque(f'single_j{i}')))]})) for i in range(1, 5)])
+        out = eng.exec_fn(st, fn, [RefV(Cell(problem), 0), RefV(Cell(job_index), 0)])
+        return (doc, out)
+
+    paths = eng.explore(body, max_paths=20000)
+    res.paths = len(paths)
+    res.functions |= eng.functions_used
+    for st, out in paths:
+        if out is None:
+            if not no_panic(ctx, res, env, st, what=name):
+                break
+            continue
+        doc, locks = out
+        got = []
+        for lk in locks.items:
+            lock = deref_all(lk)
+            while isinstance(lock, ArcV):
+                lock = lock.cell.v
+            cond = deref_all(env.field(lock, 'domain::Lock', 'condition_fn'))
+            while isinstance(cond, ArcV):
+                cond = cond.cell.v
+            key = (deref_all(cond.fields[0]).name.strip('"'), cond.fields[1].concrete())
+            for d in env.field(lock, 'domain::Lock', 'details').items:
+                def variant_of(v):
+                    if hasattr(v, 'variant'):
+                        return v.variant()
+                    # a unit variant built by name: `LockOrder::Strict` appears as an aggregate called `Strict`
+                    nm = (getattr(v, 'ty', '') or '').split('::')[-1]
+                    if nm in ('Any', 'Sequence', 'Strict', 'Departure', 'Arrival', 'Fixed'):
+                        return {'Any': 0, 'Sequence': 1, 'Strict': 2, 'Departure': 1, 'Arrival': 2, 'Fixed': 3}[nm]
+                    raise Inconclusive(f'enum value {v!r} (kind {getattr(v, "kind", None)}, ty {getattr(v, "ty", None)}, fn {getattr(v, "fn_name", None)})')
+                order = variant_of(env.field(d, 'domain::LockDetail', 'order'))
+                pos = variant_of(env.field(d, 'domain::LockDetail', 'position'))
+                jobs = [deref_all(j.payload[0][0]).cell.v.name.replace('single_', '') for j in env.field(d, 'domain::LockDetail', 'jobs').items]
+                got.append((key, TYPES[order], ('any', 'departure', 'arrival', 'fixed')[pos], jobs))
+        want = []
+        for rel in doc:
+            f, l = rel['jobs'][0], rel['jobs'][-1]
+            pos = 'fixed' if (f == 'departure' and l == 'arrival') else 'departure' if f == 'departure' else 'arrival' if l == 'arrival' else 'any'
+            want.append(((rel['vehicle'], rel['shift'] or 0), rel['type'], pos, [j for j in rel['jobs'] if j not in ('departure', 'arrival')]))
+        n_locks = len(locks.items)
+        problems = []
+        if sorted(got, key=str) != sorted(want, key=str):
+            problems.append(f'lock details (vehicle/shift of the condition, order, position, jobs) {sorted(got, key=str)}, expected {sorted(want, key=str)}')
+        if n_locks != len({w[0] for w in want}):
+            problems.append(f'{n_locks} locks for {len({w[0] for w in want})} distinct (vehicle, shift) pairs')
+        if not decide_claim(ctx, res, env, st, z3.BoolVal(not problems), what=f'{name}: relations {doc}: ' + '; '.join(problems)[:500]):
+            if res.status == 'violated':
+                res.case = {'kind': 'read_locks', 'relations': doc}
+            break
+        if not no_panic(ctx, res, env, st, what=name):
+            break
+        res.witnesses += 1
+    if res.status == 'holds' and res.witnesses == 0:
+        res.status, res.detail = 'inconclusive', 'vacuous'
+    res.time = time.time() - t0
+    return res
+
+
 def rules_problem(job, dims, costs=None):
     far = rfc3339(30 * 86400)
     return {'plan': {'jobs': [job]},
